@@ -307,7 +307,7 @@ func TestC15(t *testing.T) {
 	rig.Main(t, "C15", "rapid emitter histories with listing generation on (instructions, labels, label references, comments up to 300 printable characters, data blocks of "+
 		"0,1,2,15,16,17,31,32,33,47,48,49,64,65,80 bytes, optional base set first; a quarter of the data blocks are handed over as a window of the target buffer itself that overlaps the destination), buffer exactly as large as the program in a quarter of the cases, listed before and after Finalize: "+
 		"the hex listing's 0x.., tokens left of any // must concatenate to Bytes(); the text listing is walked in lockstep with the model's line records (address and bytes of every "+
-		"instruction and db line, labels/comments/base directives where issued); both writers return nil and leave the program unchanged; a sixth of the clone-free histories run in a buffer that is 1-40 bytes too small, a third produce both listings also in the middle of the program, and programs with comments of 0.5-9 KiB are listed.  Non-trivial = the history has a data block longer "+
+		"instruction and db line, labels/comments/base directives where issued); both writers return nil and leave the program unchanged; a sixth of the clone-free histories run in a buffer that is 1-40 bytes too small, a third produce both listings also in the middle of the program, and programs with comments of 0.5-9 KiB are listed; the listings are produced 255, 256, 257 and 512 records apart.  Non-trivial = the history has a data block longer "+
 		"than 16 bytes or a label reference; distinct = hash(case).",
 		func(r *rig.Run) {
 			ev := r.Ev
@@ -343,6 +343,26 @@ func TestC15(t *testing.T) {
 					r.CheckSweep("large", c, func() error { return c15Check(c) })
 					ev.Case(true, rig.Hash64("large", bi), nil)
 					ev.Class("large-program(>4KiB-or->64KiB-or-700-lines)")
+				}
+			}
+			// a look at the listings, then exactly 255, 256, 257 and 512 more records, then the listings again
+			if rig.Shard() == 1%rig.Shards() {
+				nop := asmcat.Op{Kind: "ins", Method: "NOP"}
+				for _, more := range []int{255, 256, 257, 512} {
+					for _, mix := range []bool{false, true} {
+						var ops []asmcat.Op
+						for i := 0; i < 10+more; i++ {
+							if mix && i%3 == 1 {
+								ops = append(ops, asmcat.Op{Kind: "comment", Text: fmt.Sprint("line ", i)})
+							} else {
+								ops = append(ops, nop)
+							}
+						}
+						c := c15Case{Ops: ops, ListAt: 10, Finalize: true}
+						r.CheckSweep("large", c, func() error { return c15Check(c) })
+						ev.Case(true, rig.Hash64("records-between-listings", more, mix), nil)
+						ev.Class("listings-256-records-apart")
+					}
 				}
 			}
 			r.Rapid("rapid", rig.Pick(25000, 100000), func(t *rapid.T) {
